@@ -576,3 +576,187 @@ def _reconnect_contract(cls, name):
 
 ReconnectSync = _reconnect_contract(TR.SyncTransport, "reconnect-hook[threaded]")
 ReconnectAsync = _reconnect_contract(TR.AsyncTransport, "reconnect-hook[async]")
+
+
+# ------------------------------------------------------------------------------------------- watchdog, with slack
+# F20w shows that "answered within the reconnect timeout" alone does not keep a link: the deadline is counted
+# from the previous answer.  What the code does guarantee is proved here as an inductive invariant over the two
+# events of a link's life - a reader-loop iteration (check_connection) and the arrival of an answer
+# (_handle_i_version) - under a stated slack: every probe is answered within L, iterations are at most dl apart,
+# and L + dl <= reconnect_timeout.  Then no iteration ever drops the link.
+#   c = tcp_check_timer (time of the last probe, or of the connect), d = tcp_disconnect_timer (last answer, or
+#   connect), ghosts: cp = time of the probe before the last one, o = the last probe is still unanswered,
+#   last = time of the latest iteration, now = time of the latest event.
+def winv(c, d, cp, o, last, now, L, dl, rt):
+    return (
+        cp <= c
+        and c <= last
+        and last <= now
+        and d <= now
+        and last <= c + rt  # no probe was overdue at the latest iteration
+        and c - cp <= rt + dl  # probes are at most one timeout and one loop period apart
+        and (o or d >= c)  # an answered probe was answered after it was sent
+        and (not o or (d >= cp and now <= c + L))  # an unanswered one is younger than L, its predecessor was answered
+    )
+
+
+def _w_iteration(gw):
+    gw.check_connection()
+    return gw
+
+
+def _w_answer(gw):
+    gw._handle_i_version(None)
+    return gw
+
+
+def _w_setup(kind):
+    def setup(h):
+        import time as _t
+
+        gw, log = _tcp_gateway(h)
+        ctx = h.ctx
+        env = h.it.env
+        for nm in ("cp", "last", "now", "L", "dl", "t"):
+            env[nm] = h.sym("real", nm)
+        env["o"] = h.sym("bool", "outstanding")
+        env["c0"], env["d0"] = gw.fields["tcp_check_timer"], gw.fields["tcp_disconnect_timer"]
+        ctx.add_fact(z3.And(env["L"].term >= 0, env["dl"].term > 0, env["L"].term + env["dl"].term <= env["rt"].term))
+        h.it.models[id(_t.time)] = ModelFn("time.time", lambda it, a, k: env["t"])
+        env["log"] = log
+        for fn, key in ((w_c0, "c0"), (w_d0, "d0"), (w_cp, "cp"), (w_o, "o"), (w_last, "last"), (w_now, "now"), (w_L, "L"), (w_dl, "dl"), (w_rt, "rt"), (w_t, "t")):
+            h.it.models[id(fn)] = ModelFn(fn.__name__, lambda it, a, k, _k=key: env[_k])
+        h.it.models[id(w_probe_sent)] = ModelFn("w_probe_sent", lambda it, a, k: len(log) == 1)
+        return [gw], {}
+
+    return setup
+
+
+def w_c0():
+    return 0.0
+
+
+def w_d0():
+    return 0.0
+
+
+def w_cp():
+    return 0.0
+
+
+def w_o():
+    return False
+
+
+def w_last():
+    return 0.0
+
+
+def w_now():
+    return 0.0
+
+
+def w_L():
+    return 0.0
+
+
+def w_dl():
+    return 0.0
+
+
+def w_rt():
+    return 0.0
+
+
+def w_t():
+    return 0.0
+
+
+def w_probe_sent():
+    return False
+
+
+@contract("mysensors.gateway_tcp:BaseTCPGateway.check_connection", props=["C20"], name="watchdog.slack.iteration")
+class WatchdogSlackIteration:
+    """one reader-loop iteration at time t (at most dl after the previous one; if a probe is outstanding, its
+    answer is not overdue yet): the link is not dropped and the invariant holds again"""
+
+    lemma = True
+    params = ["gw"]
+    body = _w_iteration
+    setup = _w_setup("iteration")
+
+    def requires(gw):
+        return (
+            winv(w_c0(), w_d0(), w_cp(), w_o(), w_last(), w_now(), w_L(), w_dl(), w_rt())
+            and w_now() <= w_t()
+            and w_t() <= w_last() + w_dl()
+            and (not w_o() or w_t() <= w_c0() + w_L())
+        )
+
+    raises = {}  # no OSError: the link is not dropped
+    ensures = {
+        "invariant-kept": lambda old, gw, result: (
+            winv(gw.tcp_check_timer, gw.tcp_disconnect_timer, w_c0(), True, w_t(), w_t(), w_L(), w_dl(), w_rt())
+            if w_probe_sent()
+            else winv(gw.tcp_check_timer, gw.tcp_disconnect_timer, w_cp(), w_o(), w_t(), w_t(), w_L(), w_dl(), w_rt())
+        ),
+        # a probe goes out exactly when one is due, and never while the previous one is unanswered
+        "probe-when-due": lambda old, gw, result: w_probe_sent() == (w_c0() + w_rt() < w_t()) and (not w_probe_sent() or not w_o()),
+    }
+
+
+@contract("mysensors.gateway_tcp:BaseTCPGateway._handle_i_version", props=["C20"], name="watchdog.slack.answer")
+class WatchdogSlackAnswer:
+    """the answer to the outstanding probe arrives at time t (within L of the probe): the invariant holds again,
+    with no probe outstanding"""
+
+    lemma = True
+    params = ["gw"]
+    body = _w_answer
+    setup = _w_setup("answer")
+
+    def requires(gw):
+        return (
+            winv(w_c0(), w_d0(), w_cp(), w_o(), w_last(), w_now(), w_L(), w_dl(), w_rt())
+            and w_o()
+            and w_now() <= w_t()
+            and w_t() <= w_c0() + w_L()
+        )
+
+    raises = {}
+    ensures = {
+        "invariant-kept": lambda old, gw, result: winv(
+            gw.tcp_check_timer, gw.tcp_disconnect_timer, w_cp(), False, w_last(), w_t(), w_L(), w_dl(), w_rt()
+        ),
+    }
+
+
+def _w_nothing(t1, t2):
+    return (t1, t2)
+
+
+@contract("mysensors.gateway_tcp:sync_connect", props=["C20"], name="watchdog.slack.initial")
+class WatchdogSlackInitial:
+    """the state the connect contracts establish - both timers stamped with clock reads t1 <= t2 taken after the
+    link came up, no probe sent yet - satisfies the invariant (with the first iteration counted from t2)"""
+
+    lemma = True
+    params = ["t1", "t2"]
+    body = _w_nothing
+
+    def setup(h):
+        env = h.it.env
+        for nm in ("L", "dl", "rt"):
+            env[nm] = h.sym("real", nm)
+        h.ctx.add_fact(z3.And(env["rt"].term > 0, env["L"].term >= 0, env["dl"].term > 0, env["L"].term + env["dl"].term <= env["rt"].term))
+        for fn, key in ((w_L, "L"), (w_dl, "dl"), (w_rt, "rt")):
+            h.it.models[id(fn)] = ModelFn(fn.__name__, lambda it, a, k, _k=key: env[_k])
+        return [h.sym("real", "t1"), h.sym("real", "t2")], {}
+
+    def requires(t1, t2):
+        # (the two stamps are consecutive statements: less than a timeout apart)
+        return t1 <= t2 and t2 <= t1 + w_rt()
+
+    raises = {}
+    ensures = {"invariant-established": lambda old, t1, t2, result: winv(t1, t2, t1, False, t2, t2, w_L(), w_dl(), w_rt())}
